@@ -19,6 +19,7 @@ PROPS = {
     'C03': ('c03', 'proof', ['SUNalg', 'instantiate']),
     'C13': ('c13', 'proof', ['SUNalg']),
     'C11': ('c11', 'proof', ['SUNalg']),
+    'C06': ('c06', 'proof', ['SUNalg', 'const']),
 }
 
 
